@@ -408,6 +408,7 @@ def run(fx, tier):
     if n_arm == 0 and not v.violations:
         raise AnalysisBroken('reconnect_op::backoff_and_reconnect: expires_after not found')
     host_rotation_table_rule(fx, v, 'C10')
+    retry_advances_rule(fx, v, 'C10')
     # back-off only on wrap-around
     callers = [c for c in cg.callers_of(lambda c, n: c.cls == 'reconnect_op' and c.n == 'backoff_and_reconnect')]
     for caller, n, line in callers:
@@ -636,3 +637,35 @@ def host_rotation_table_rule(fx, v, prop='C10'):
                 if not bad else '; '.join(bad[:3]), key=prop + ':R-ARITH:resolve_op:rotation-table', where=f.file)
     if n == 0 and not v.violations:
         raise AnalysisBroken('resolve_op::perform not found')
+
+
+def retry_advances_rule(fx, v, prop='C10'):
+    """"a refused, malformed or silent handshake is abandoned and the next broker ... is tried": the failure branch of
+    reconnect_op::(on_connect) re-enters connect() only with an ADVANCED endpoint iterator (the test that guards the call
+    increments it) and otherwise moves on to the next host (do_reconnect) - it never retries the endpoint that just failed."""
+    n = 0
+    for f in fx.functions(cls='reconnect_op', name='operator()', tag='on_connect'):
+        for b, i, l, c in f.calls():
+            if callee_name(c) != 'connect' or callee_cls(c) != 'reconnect_op':
+                continue
+            n += 1
+            v.saw(f)
+            it_arg = c.get('args', [None])[0]
+            names = {m.get('n') for m in Expr.walk(f.resolve(it_arg) if isinstance(it_arg, dict) else {}) if m.get('k') == 'ref' and m.get('dk') in ('param', 'local')}
+            advanced = False
+            def incs(x):
+                return contains(x, lambda m: (m.get('k') == 'call' and callee_name(m) in ('operator++', 'next', 'advance')
+                                              and contains(m.get('args', []) + ([m.get('obj')] if m.get('obj') else []), lambda q: q.get('k') == 'ref' and q.get('n') in names))
+                                or (m.get('k') == 'un' and m.get('op') in ('pre++', 'post++') and contains(m.get('e'), lambda q: q.get('k') == 'ref' and q.get('n') in names)))
+            for cond, pol, gb in edge_guards(f, b):
+                if incs(f.resolve(cond)):
+                    advanced = True
+            dom = f.dominators()
+            for bb, ii, ll, x in f.elements():
+                if incs(x) and (bb == b and ii < i or (bb != b and bb in dom.get(b, set()))):
+                    advanced = True
+            v.check(advanced, 'R-CGRAPH', 'reconnect_op::(on_connect)%s re-enters connect@%d [%s]' % (f.inst()[:20], l, f.tu),
+                    'connect() is re-entered after a failed attempt only with an advanced endpoint iterator',
+                    key=prop + ':R-CGRAPH:reconnect_op:retry-advances', where='%s:%d' % (f.path_file(), l))
+    if n == 0 and not v.violations:
+        raise AnalysisBroken('reconnect_op::(on_connect): no re-entry of connect() found')
